@@ -326,7 +326,8 @@ fn main() {
     let outcomes: Mutex<BTreeSet<(usize, String, usize)>> = Mutex::new(BTreeSet::new());
     let mut capped = false;
     let mut total_exec = 0u64;
-    let mut sweeps: Vec<(usize, bool)> = (0..=4).map(|m| (m, false)).collect();
+    // the statement's bound is max 0..=4 (5 executions); the thorough tier goes one further (6 executions)
+    let mut sweeps: Vec<(usize, bool)> = (0..=if thorough { 5 } else { 4 }).map(|m| (m, false)).collect();
     let tie_max = if thorough { 4 } else { 3 };
     sweeps.extend((0..=tie_max).map(|m| (m, true)));
     for (m, ties) in sweeps {
@@ -411,7 +412,7 @@ fn main() {
     if oc.len() < 8 && r.violation_count() == 0 {
         vcore::machinery_error("vacuity: fewer than 8 distinct (max, result kind, started) outcomes");
     }
-    r.set_rule("E-ASYNC, full enumeration (no deviation bound): max speculative count 0..=4 (<= 5 executions) x every sequence of events {complete(i, success|definitive|ignorable|plan-exhausted), timer tick} with polling to quiescence after each; second sweep adds timer/completion ties. evaluations = complete schedules; states = choice points + terminal states of the schedule tree, transitions = alternatives at those points; traces_validated = schedules re-executed from their recorded choices with an identical observation trace (1-in-k deterministic subset + 2x per violation). distinct_nontrivial = schedules with a tick while an execution was running AND an ignorable completion (timer re-arm and last-error bookkeeping both in play).");
+    r.set_rule("E-ASYNC, full enumeration (no deviation bound): max speculative count 0..=4 (<= 5 executions; 0..=5 in the thorough tier) x every sequence of events {complete(i, success|definitive|ignorable|plan-exhausted), timer tick} with polling to quiescence after each; second sweep adds timer/completion ties. evaluations = complete schedules; states = choice points + terminal states of the schedule tree, transitions = alternatives at those points; traces_validated = schedules re-executed from their recorded choices with an identical observation trace (1-in-k deterministic subset + 2x per violation). distinct_nontrivial = schedules with a tick while an execution was running AND an ignorable completion (timer re-arm and last-error bookkeeping both in play).");
     r.set_exhaustive(!capped);
     r.note("executions_total", json!(total_exec));
     r.note("retry_interval_ms", json!(INTERVAL.as_millis() as u64));
